@@ -23,7 +23,7 @@ RULE = ('table of every public data operation of Cache, FanoutCache, DjangoCache
         'evaluations = cases; distinct_nontrivial = distinct (class, '
         'operation, fault, retry, timeout) cases')
 DISTINCT = ('cases',)
-REQUIRED = ('cache_timeouts_raised', 'cache_retry_waited', 'bulk_partial_timeouts', 'fanout_reported', 'django_reported',
+REQUIRED = ('first_calls_of_new_threads_under_a_held_lock', 'cache_timeouts_raised', 'cache_retry_waited', 'bulk_partial_timeouts', 'fanout_reported', 'django_reported',
             'deque_waited', 'index_waited', 'lockfree_reads_ok', 'fault_taken_after_file_write', 'writing_lookups',
             'sibling_block_cases', 'rollback_journal_cases', 'commit_timeouts_raised', 'commit_retries_waited', 'fanout_bulk_totals_exact',
             'sharded_commit_failures_reported')
@@ -150,7 +150,7 @@ def bulk_ops():
     }
 
 
-def run_case(dc, sc, res, label, make, dirs_of, call, fault, retry, timeout, expect, cls):
+def run_case(dc, sc, res, label, make, dirs_of, call, fault, retry, timeout, expect, cls, fresh_thread=False):
     """make(directory, timeout) -> object; dirs_of(directory) -> database dirs to lock.
     expect: 'timeout' | 'value:<x>' | 'wait' (returns after release, equals twin)."""
     d = sc.new()
@@ -167,12 +167,36 @@ def run_case(dc, sc, res, label, make, dirs_of, call, fault, retry, timeout, exp
             holder.take()
         probe.watch(d)
         probe.set_controller(ctrl)
-        try:
-            got = ('ok', call(obj, retry))
-        except dc.Timeout as exc:
-            got = ('Timeout', exc.args)
-        except Exception as exc:       # noqa: BLE001
-            got = ('raise', '%s: %s' % (type(exc).__name__, exc))
+
+        def invoke():
+            try:
+                return ('ok', call(obj, retry))
+            except dc.Timeout as exc:
+                return ('Timeout', exc.args)
+            except Exception as exc:       # noqa: BLE001
+                return ('raise', '%s: %s' % (type(exc).__name__, exc))
+        if fresh_thread:
+            # the call is the first thing a new thread does with the object (its connection is opened by the call): the
+            # outcome under the held lock is the same.  The verdict is causal, not timed: a call still running after a
+            # generous wait is given the lock back, and if it then returns it had been waiting for the lock.
+            import threading
+            box = []
+            th = threading.Thread(target=lambda: box.append(invoke()), daemon=True)
+            th.start()
+            th.join(8)
+            if th.is_alive():
+                holder.release()
+                th.join(90)
+                probe.set_controller(None)
+                res.violation('%s %s as the first call of a new thread under a held lock did not return while the lock was held; '
+                              'after the lock was released it %s' % (cls, label, 'returned %r' % (box[0],) if box else 'still did not return'),
+                              dict(wit, first_call_of_a_new_thread=True))
+                return
+            got = box[0]
+            res.count('first_calls_of_new_threads_under_a_held_lock')
+            wit['first_call_of_a_new_thread'] = True
+        else:
+            got = invoke()
         probe.set_controller(None)
         still_held = holder.held
         res.count('evaluations')
@@ -843,6 +867,9 @@ def run_shard(tier, seed, shard, nshards, res):
             if expect in ('timeout', 'bulk') and 'get' in label or label.startswith('read ('):
                 res.count('writing_lookups')
             run_case(dc, sc, res, label, make, dirs_of, call, fault, retry, timeout, expect, cls)
+            if fault[0] == 'before' and not timeout and (expect in ('timeout', 'read') or expect.startswith('report')) \
+                    and (i // nshards) % 3 == 0:
+                run_case(dc, sc, res, label, make, dirs_of, call, fault, retry, timeout, expect, cls, fresh_thread=True)
             if res.counters.get('violations_raw', 0) > 10:
                 return
         for i, (label, call, retry, k) in enumerate(reader_cases()):
